@@ -50,12 +50,12 @@ Rest(s, i) == SubSeq(s, i, Len(s))
 (* A refusal may have left at most `wr` in the output area: 0 = untouched, 1 = zero bytes only (cleared), *)
 (* 2 = anything.                                                                                        *)
 (* need = an output capacity with which a valid ciphertext must be decrypted; with less (but room for the  *)
-(* plaintext) the call may decline.                                                                     *)
+(* plaintext) the call may decline; so it may for the empty plaintext, which the encryptors refuse too.  *)
 DecVerdictN(e, def, wr, need) ==
     /\ e.crash = 0 /\ e.over = 0
     /\ IF def.ok /\ Len(def.m) <= e.cap
        THEN IF Succ(e) THEN e.olen = Len(def.m) /\ e.out = def.m
-            ELSE Refused(e) /\ e.cap < need
+            ELSE Refused(e) /\ (e.cap < need \/ def.m = <<>>)     \* (the library's schemes exclude the empty plaintext)
        ELSE Refused(e) /\ e.touched <= wr
     /\ (e.honest = 1 => def.ok /\ def.m = e.m0)
 DecVerdict(e, def, wr) == DecVerdictN(e, def, wr, Len(def.m))
